@@ -280,11 +280,11 @@ func StandardVariants(nPieces, nDir int, rng *rand.Rand, budget int, exhaustiveM
 				dirChoices = append(dirChoices, struct {
 					name string
 					f    func(int, int) bool
-				}{fmt.Sprintf("dironly%d", j), func(i, n int) bool { return i == j }},
+				}{fmt.Sprintf("dironly:%d", j), func(i, n int) bool { return i == j }},
 					struct {
 						name string
 						f    func(int, int) bool
-					}{fmt.Sprintf("dirdrop%d", j), func(i, n int) bool { return i != j }})
+					}{fmt.Sprintf("dirdrop:%d", j), func(i, n int) bool { return i != j }})
 			}
 		}
 	}
@@ -298,26 +298,26 @@ func StandardVariants(nPieces, nDir int, rng *rand.Rand, budget int, exhaustiveM
 		if nPieces <= exhaustiveMax {
 			for m := 1; m < (1<<nPieces)-1; m++ {
 				m := m
-				pcs = append(pcs, pc{fmt.Sprintf("mask%x", m), func(i, n int) bool { return m&(1<<i) != 0 }})
+				pcs = append(pcs, pc{fmt.Sprintf("mask:%x", m), func(i, n int) bool { return m&(1<<i) != 0 }})
 			}
 		} else {
 			for p := 1; p < nPieces; p++ {
 				p := p
-				pcs = append(pcs, pc{fmt.Sprintf("prefix%d", p), func(i, n int) bool { return i < p }})
+				pcs = append(pcs, pc{fmt.Sprintf("prefix:%d", p), func(i, n int) bool { return i < p }})
 			}
 			for j := 0; j < nPieces; j++ {
 				j := j
-				pcs = append(pcs, pc{fmt.Sprintf("drop%d", j), func(i, n int) bool { return i != j }})
+				pcs = append(pcs, pc{fmt.Sprintf("drop:%d", j), func(i, n int) bool { return i != j }})
 			}
 			for j := 0; j < nPieces; j++ {
 				j := j
-				pcs = append(pcs, pc{fmt.Sprintf("only%d", j), func(i, n int) bool { return i == j }})
+				pcs = append(pcs, pc{fmt.Sprintf("only:%d", j), func(i, n int) bool { return i == j }})
 			}
 			pcs = append(pcs, pc{"suffix-half", func(i, n int) bool { return i >= n/2 }})
 			for r := 0; r < 6; r++ {
 				seed := salt*1000003 + int64(r)
 				prob := []float64{0.5, 0.2, 0.8, 0.5, 0.9, 0.1}[r]
-				pcs = append(pcs, pc{fmt.Sprintf("rand%d", r), func(i, n int) bool {
+				pcs = append(pcs, pc{fmt.Sprintf("rand:%d", r), func(i, n int) bool {
 					x := rand.New(rand.NewSource(seed + int64(i)*7919)).Float64()
 					return x < prob
 				}})
@@ -335,23 +335,32 @@ func StandardVariants(nPieces, nDir int, rng *rand.Rand, budget int, exhaustiveM
 		}
 	}
 	if budget > 0 && len(vs) > budget {
-		// keep kill, none, all and a seeded sample of the rest
-		head := vs[:1]
-		rest := vs[1:]
-		rng.Shuffle(len(rest), func(i, j int) { rest[i], rest[j] = rest[j], rest[i] })
-		// make sure the extreme ones are in
-		out := append([]Variant{}, head...)
-		for _, v := range rest {
-			if v.Name == "dirall/none/full=false" || v.Name == "dirall/all/full=true" {
-				out = append(out, v)
+		// a seeded sample: about a third from the extreme variants (kill, nothing
+		// pending reached disk, everything did), the rest from the torn ones
+		var forced, rest []Variant
+		for _, v := range vs {
+			if v.Kill || v.Name == "dirall/none/full=false" || v.Name == "dirall/all/full=true" {
+				forced = append(forced, v)
+			} else {
+				rest = append(rest, v)
 			}
 		}
+		rng.Shuffle(len(forced), func(i, j int) { forced[i], forced[j] = forced[j], forced[i] })
+		rng.Shuffle(len(rest), func(i, j int) { rest[i], rest[j] = rest[j], rest[i] })
+		nf := (budget + 2) / 3
+		if nf > len(forced) {
+			nf = len(forced)
+		}
+		out := append([]Variant{}, forced[:nf]...)
 		for _, v := range rest {
 			if len(out) >= budget {
 				break
 			}
-			if v.Name == "dirall/none/full=false" || v.Name == "dirall/all/full=true" {
-				continue
+			out = append(out, v)
+		}
+		for _, v := range forced[nf:] {
+			if len(out) >= budget {
+				break
 			}
 			out = append(out, v)
 		}
